@@ -100,7 +100,7 @@ def history_run(ctx, rng, nd, length):
     shared = nd.MinStepGenerator(base_step=0.01, step_ratio=2.0, num_steps=9) if rng.random() < 0.5 else nd.MinStepGenerator(base_step=0.01, num_steps=9)
     shared_default_ratio = shared._step_ratio is None
     for _ in range(length):
-        op = str(rng.choice(['construct', 'call', 'call', 'call', 'set-restore', 'share-gen', 'clear', 'prepopulate']))
+        op = str(rng.choice(['construct', 'call', 'call', 'call', 'set-restore', 'set-keep', 'share-gen', 'clear', 'prepopulate']))
         if op == 'construct' or not pool:
             s = random_spec(rng)
             f = eval(s['fsrc'], {'np': np})
@@ -135,6 +135,30 @@ def history_run(ctx, rng, nd, length):
                 val, info = d(np.array(s['x']) if isinstance(s['x'], list) else s['x'])
                 obs.append((s, {'value': hexify(val), 'error_estimate': hexify(info.error_estimate), 'final_step': hexify(info.final_step),
                                 'index': [int(i) for i in np.atleast_1d(info.index).ravel()]}))
+        elif op == 'set-keep':
+            # call, change order (any class) or n / method (Derivative) for good, call again: the object must now behave as a fresh object
+            # constructed with the new configuration (the rule, the step generator and the extrapolator all follow the attribute)
+            i = int(rng.integers(0, len(pool)))
+            s, d = pool[i]
+            if s['step'] is not None or s['class'] == 'Hessian':
+                continue
+            which = 'order' if s['class'] != 'Derivative' else str(rng.choice(['order', 'order', 'n']))
+            new_val = int(rng.choice([2, 4, 6])) if which == 'order' else int(rng.choice([1, 2, 3]))
+            if s['kw'].get('method') in ('complex', 'multicomplex') and which == 'n':
+                continue
+            try:
+                d(np.array(s['x']) if isinstance(s['x'], list) else s['x'])
+            except Exception:   # noqa
+                pass
+            setattr(d, which, new_val)
+            s2 = dict(s, kw=dict(s['kw'], **{which: new_val}))
+            pool[i] = (s2, d)
+            try:
+                val, info = d(np.array(s2['x']) if isinstance(s2['x'], list) else s2['x'])
+            except Exception:   # noqa
+                continue
+            obs.append((s2, {'value': hexify(val), 'error_estimate': hexify(info.error_estimate), 'final_step': hexify(info.final_step),
+                             'index': [int(i_) for i_ in np.atleast_1d(info.index).ravel()]}))
         elif op == 'share-gen':
             s = random_spec(rng)
             s['step'] = {'_kind': 'min', 'base_step': 0.01, 'num_steps': 9} if shared_default_ratio else {'_kind': 'min', 'base_step': 0.01, 'step_ratio': 2.0, 'num_steps': 9}
